@@ -1444,6 +1444,68 @@ fn model_wand_single(ctx: &mut Ctx, searcher: &Searcher, reader: &SegmentReader,
     Some(ctx.model.ask(&format!("C06 wand1 {pol} {arg} {} {}", score_key(initial), if blocks.is_empty() { "-".to_string() } else { blocks.join(";") })))
 }
 
+/// one term scorer as the mirrored loops (Model/BlockWand.lean) see it:
+/// `max;tailMax;tailLoaded;cost;last:bm,…;doc@score,…` with floats as bit patterns
+fn scorer_line(searcher: &Searcher, reader: &SegmentReader, fields: &Fields, t: &str) -> Option<(String, usize)> {
+    let (field, term) = term_of(fields, t);
+    if field == fields.basic {
+        return None;
+    }
+    let w = Bm25Weight::for_terms(searcher, &[term.clone()]).ok()?;
+    let inv = reader.inverted_index(field).ok()?;
+    let fnr = reader.get_fieldnorms_reader(field).ok()?;
+    let mut bp = inv.read_block_postings(&term, IndexRecordOption::WithFreqs).ok()??;
+    let doc_freq = bp.doc_freq() as usize;
+    let mut blocks: Vec<String> = vec![];
+    let mut posts: Vec<String> = vec![];
+    let mut tail_max = 0f32;
+    loop {
+        let docs = bp.docs().to_vec();
+        if docs.is_empty() {
+            break;
+        }
+        let freqs = bp.freqs().to_vec();
+        let full = docs.len() == 128;
+        if full {
+            blocks.push(format!("{}:{}", docs[127], bp.block_max_score(&fnr, &w).to_bits()));
+        }
+        for (d, f) in docs.iter().zip(freqs.iter()) {
+            let sc = w.score(fnr.fieldnorm_id(*d), *f);
+            posts.push(format!("{d}@{}", sc.to_bits()));
+            if !full && sc > tail_max {
+                tail_max = sc;
+            }
+        }
+        bp.advance();
+    }
+    if posts.is_empty() {
+        return None;
+    }
+    let line = format!("{};{};{};{};{};{}", w.max_score().to_bits(), tail_max.to_bits(), if doc_freq < 128 { 1 } else { 0 }, doc_freq,
+        if blocks.is_empty() { "-".to_string() } else { blocks.join(",") }, posts.join(","));
+    Some((line, doc_freq))
+}
+
+/// ask the mirrored multi-scorer loop (`bwand` / `binter`) for its callback sequence
+fn model_multi(ctx: &mut Ctx, op: &str, searcher: &Searcher, reader: &SegmentReader, fields: &Fields, terms: &[String], policy: &Policy, initial: f32) -> Option<String> {
+    let mut lines = vec![];
+    let mut total = 0;
+    for t in terms {
+        match scorer_line(searcher, reader, fields, t) {
+            Some((l, n)) => { lines.push(l); total += n; }
+            None => {
+                // a term absent from the segment: EmptyScorer — a union drops it, a conjunction is empty
+                if op == "binter" || term_of(fields, t).0 == fields.basic { return None; }
+            }
+        }
+    }
+    if lines.len() < 2 || total > 12_000 {
+        return None;
+    }
+    let (pol, arg) = match policy { Policy::Const(b) => ("const", *b as u64), Policy::Staircase => ("stair", 0), Policy::KthBest(k) => ("kth", *k as u64) };
+    Some(ctx.model.ask(&format!("C06 {op} {pol} {arg} {} {}", initial.to_bits(), lines.join("/"))))
+}
+
 fn driver_case(ctx: &mut Ctx, spec: &CorpusSpec, built: &Built, searcher: &Searcher, q: &Q, policy: &Policy, initial: f32) {
     use tantivy::query::EnableScoring;
     let query = q.build(&built.fields);
@@ -1489,7 +1551,27 @@ fn driver_case(ctx: &mut Ctx, spec: &CorpusSpec, built: &Built, searcher: &Searc
                 }
             }
         }
-        if got != expected {
+        // correspondence with the mirrored loop of block_wand (Model/BlockWand.lean), bit for bit:
+        // same documents offered with the same score bits — also where the bounds fail
+        if let Q::Union(ts) = q {
+            if let Some(resp) = model_multi(ctx, "bwand", searcher, reader, &built.fields, ts, policy, initial) {
+                ctx.report.count("block-wand-vs-mirrored-loop");
+                let real_calls: String = if got.is_empty() { "-".into() } else { got.iter().map(|(d, s)| format!("{d}@{s}")).collect::<Vec<_>>().join(",") };
+                let model_calls = resp.split('|').nth(1).unwrap_or("?").to_string();
+                if !resp.starts_with("ok|") || model_calls != real_calls {
+                    let (ubmax, ubblock) = ub_check(searcher, &built.fields, ts);
+                    let ub_fails = ubmax.is_some() || ubblock.is_some();
+                    ctx.report.count(if ub_fails { "block-wand-vs-mirrored-loop:mismatch-where-a-bound-fails" } else { "block-wand-vs-mirrored-loop:mismatch" });
+                    let rc: Vec<&str> = real_calls.split(',').collect();
+                    let mc: Vec<&str> = model_calls.split(',').collect();
+                    let p = (0..rc.len().max(mc.len())).find(|i| rc.get(*i) != mc.get(*i)).unwrap_or(0);
+                    ctx.report.violation("model", "C06:block-wand-mirrored-loop-mismatch", format!("{} on segment {ord}, policy {policy:?}, initial {initial:?}: block_wand offers {:?} at call {p}, the mirrored loop {:?} ({} vs {} calls; outcome {}; a bound hypothesis fails here: {ub_fails})", q.to_json(), rc.get(p), mc.get(p), rc.len(), mc.len(), resp.split('|').next().unwrap_or("")), case.clone());
+                }
+            }
+        }
+        // (three and more clauses: the two paths add the clause scores in different orders, so the
+        //  exact comparison with the exhaustive loop is left to `driver_case_multi`)
+        if q.clauses() <= 2 && got != expected {
             let p = (0..got.len().max(expected.len())).find(|i| got.get(*i) != expected.get(*i)).unwrap_or(0);
             let mut key = "C06:pruning-driver-differs-from-exhaustive".to_string();
             let mut extra = String::new();
@@ -1603,7 +1685,7 @@ fn driver_run(ctx: &mut Ctx, spec: &CorpusSpec, built: &Built, searcher: &Search
         rng.shuffle(&mut ts);
         let q = match rng.below(6) {
             0 | 1 => Q::Term(ts[0].clone()),
-            2 => Q::Union(ts[..2].to_vec()),
+            2 => Q::Union(ts[..2 + rng.usize_below(3)].to_vec()),
             3 => Q::Inter(ts[..2].to_vec()),
             4 => Q::Term(["n:a", "n:b", "t:a"][rng.usize_below(3)].to_string()),
             // mixed fields (both with freqs): different fieldnorm readers and weights in one WAND
